@@ -129,6 +129,38 @@ def main(tier):
                         execs.append([{"e": "Reset", "x": x, "txt": xin},
                                       {"e": "Round", "cmd": "dround %s%s" % ("-n " if nxt else "", arg), "kind": kind, "v": v, "dir": dr, "next": nxt,
                                        "res": res, "out": got}])
+        # the same instants given as seconds since the epoch (-i %s -f %s): before 1970, around 2^31 and beyond 2^32
+        # (epoch values have no fields to set: the tool offers them the co-classes only; the value 0 itself cannot be read, see the C11 finding)
+        tsp = [x for x in specs(True, rng) if x[1] in ("coh", "comi", "cos")]      # (/1d leaves an epoch value unchanged: day co-classes are not offered for them)
+        # (non-negative only: a negative epoch on a stdin line loses its sign, see the C11 finding)
+        ep_days = [141427, 141427 + 1, 141427 + 24855, 141427 + 24856, 141427 + 49710, 141427 + 49711, 141427 + 60000, 141427 + 400000]
+        ep_inputs = [(l, sd) for l in ep_days for sd in (0, 30, 37230, 86370, 86399) if (l, sd) != (141427, 0)]
+        einp = "".join("%d\n" % ((l - 141427) * 86400 + sd) for l, sd in ep_inputs)
+
+        def from_epoch(txt):
+            try:
+                n = int(txt)
+            except ValueError:
+                return None
+            l, sd = 141427 + n // 86400, n % 86400
+            if not (chainmod.LDN_1601 <= l <= chainmod.LDN_LAST):
+                return None
+            r = ch.row(l)
+            return {"ldn": r[0], "y": r[1], "m": r[2], "d": r[3], "wd": r[4], "sod": sd}
+        for arg, kind, v, dr in tsp:
+            for nxt in (False, True):
+                args = ["-i", "%s", "-f", "%s"] + (["-n"] if nxt else []) + (["--", arg] if arg.startswith("-") else [arg])
+                rc, lines, err = cc.tool_lines(dround, args, einp)
+                nrun += 1
+                if len(lines) != len(ep_inputs):
+                    rep.disagree("dround epoch input %s%s: %d lines for %d inputs" % ("-n " if nxt else "", kind, len(lines), len(ep_inputs)), {"arg": arg, "stderr": err[:200]})
+                    continue
+                for (l, sd), got in zip(ep_inputs, lines):
+                    x = from_epoch(str((l - 141427) * 86400 + sd))
+                    res = from_epoch(got) or {"ldn": 0, "y": 1582, "m": 10, "d": 15, "wd": 5, "sod": 0}
+                    execs.append([{"e": "Reset", "x": x, "txt": "@%d" % ((l - 141427) * 86400 + sd)},
+                                  {"e": "Round", "cmd": "dround -i %%s %s%s" % ("-n " if nxt else "", arg), "kind": kind, "v": v, "dir": dr, "next": nxt, "res": res, "out": got,
+                                   "epoch": True}])
         # chained RNDSPECs are evaluated left to right
         sp = specs(True, rng)
         for i in range(40 if quick else 600):
@@ -158,7 +190,7 @@ def main(tier):
         rep.notes["tool_runs"] = nrun
 
         def key(bad, ex):
-            return "dround %s%s dir=%s" % ("-n " if bad.get("next") else "", bad.get("kind"), bad.get("dir"))
+            return "dround %s%s%s dir=%s" % ("epoch input " if bad.get("epoch") else "", "-n " if bad.get("next") else "", bad.get("kind"), bad.get("dir"))
         cc.validate_and_report(rep, "RoundTrace", "RoundTrace.cfg", execs, key, "dround_run")
         rep.cov["rule"] = ("one trace = one input value and the RNDSPEC(s) applied to it: weekday, month, day-of-month 1..31, hour, minute, "
                            "second values, co-classes /N{h,m,s} for divisors, /1d, /N mo, /N y, both directions, with and without --next; inputs: "
